@@ -4,6 +4,7 @@
   entries are valid canonical prefixes, as the kernel reports them.
 -/
 import Corerad.Spec.C15
+import Corerad.Model.RA
 import Corerad.Lemmas.ListUtil
 
 namespace Corerad.Props.C15
@@ -186,13 +187,21 @@ theorem holds_model (rs : List Prefix) (hwf : WF rs) :
     · right; exact (mem_iff rs p).mpr ⟨hp, hw⟩
     · left; simpa using hw
 
-/-- Every expanded route carries the stanza's preference and lifetime (`(*Route).apply` maps one
-    constructor over the expanded routes). -/
-theorem uniform_stanza {β : Type} (mk : Prefix → β) (rs : List Prefix) :
-    ∀ o ∈ (currentRoutes rs).map mk, ∃ p ∈ currentRoutes rs, o = mk p := by
-  intro o ho
-  obtain ⟨p, hp, rfl⟩ := List.mem_map.mp ho
-  exact ⟨p, hp, rfl⟩
+/-- Every option the `::/0` stanza yields is a Route Information option for one of the expanded
+    routes with the stanza's preference and (possibly counted-down) lifetime — one per expanded
+    route, in order. Stated of the model's `Plugin.apply` (the transcription of `(*Route).Apply`,
+    tied to the source by the differential runs of this check). -/
+theorem uniform_stanza (sys : SysState) (p : Prefix) (preference : Nat) (lifetime : Dur) (dep : Bool)
+    (rs : List Prefix) (hs : sys.routes = some rs) :
+    Plugin.apply sys (.route true p preference lifetime dep) =
+      some ((currentRoutes rs).map fun q =>
+        Opt.ri q.addr q.bits preference (routeLifetime dep sys.epoch lifetime sys.now)) := by
+  simp [Plugin.apply, hs]
+
+theorem wildcard_fails_with_source (sys : SysState) (p : Prefix) (preference : Nat) (lifetime : Dur)
+    (dep : Bool) (hs : sys.routes = none) :
+    Plugin.apply sys (.route true p preference lifetime dep) = none := by
+  simp [Plugin.apply, hs]
 
 /-- Non-vacuity and the repaired defect F-11: /48 and /64 at one base address keep the /48,
     a duplicated entry is advertised once, host routes and IPv4 are skipped. -/
